@@ -31,6 +31,34 @@ Definition exc_name (e : exc) : string :=
 Definition otag_of (t : tag) : otag :=
   match t with TOk => OOk | TMarker n => OMarker n | TExc e => OExc (exc_name e) end.
 
+(** ** Interpretation of callable symbols
+
+    The model is parametric in what user callables return ([VApp fn args]).  The harness
+    also uses callables that return [None] (a "blank -> None" converter, a hook without a
+    return statement); their symbols carry the prefix "nil_".  The prediction is the
+    symbolic prediction under the homomorphism that interprets those symbols; the model
+    never branches on an assigned value, so this is the model's answer for those callables. *)
+Definition returns_none (fn : string) : bool := String.prefix "nil_" fn.
+
+Fixpoint interp (v : val) : val :=
+  match v with
+  | VApp fn args => if returns_none fn then VNone else VApp fn (map interp args)
+  | v => v
+  end.
+
+Definition interp_snap (l : list (string * option val)) : list (string * option val) :=
+  map (fun p => (fst p, match snd p with Some v => Some (interp v) | None => None end)) l.
+
+Definition interp_event (e : event) : event :=
+  match e with
+  | EvPreInit p k => EvPreInit (map interp p) (map (fun q => (fst q, interp (snd q))) k)
+  | EvFactory f n s => EvFactory f n s
+  | EvConverter f n a => EvConverter f n (map interp a)
+  | EvValidator f v x s => EvValidator f v (interp x) (interp_snap s)
+  | EvPostInit => EvPostInit
+  | EvHook f h v => EvHook f h (interp v)
+  end.
+
 (** (outcome, names whose value changed with their new value, callbacks of this step) *)
 Definition sobs := (otag * list (string * option val) * list event)%type.
 
@@ -84,8 +112,8 @@ Fixpoint obs_history (k : cls_spec) (names : list string) (prev : st) (h : list 
   | [] => []
   | (t, s) :: r =>
       (otag_of t,
-       diff_state (snap_names k (s_inst prev) names) (snap_names k (s_inst s) names),
-       skipn (List.length (s_trace prev)) (s_trace s)) :: obs_history k names s r
+       diff_state (interp_snap (snap_names k (s_inst prev) names)) (interp_snap (snap_names k (s_inst s) names)),
+       map interp_event (skipn (List.length (s_trace prev)) (s_trace s))) :: obs_history k names s r
   end.
 
 Definition model_run (k : cls_spec) (impl : sa_impl) (init : list (string * option val)) (r : run) : list sobs :=
@@ -108,9 +136,10 @@ Definition meta_ok (k : cls_spec) (m : meta) : bool :=
   | Some a, COsDefault =>
       os_is_none (a_on_setattr a) && a_init a && negb (k_frozen k) &&
       let w := converted a (m_x m) in
-      let evs := conv_events (conv_call_of a) (a_name a) (m_x m) ++
-                 match a_validator a with Some vn => [EvValidator (a_name a) vn w []] | None => [] end in
-      oval_eqb (m_assign m) (Some w) && oval_eqb (m_init m) (Some w) &&
+      let evs := map interp_event
+                   (conv_events (conv_call_of a) (a_name a) (m_x m) ++
+                    match a_validator a with Some vn => [EvValidator (a_name a) vn w []] | None => [] end) in
+      oval_eqb (m_assign m) (Some (interp w)) && oval_eqb (m_init m) (Some (interp w)) &&
       trace_eqb (map strip_snap (m_assign_events m)) evs &&
       trace_eqb (map strip_snap (m_init_events m)) evs
   | _, _ => false
